@@ -28,6 +28,7 @@ pub fn check(ctx: &mut Ctx, doc: &Tree, path: &JPath, text: &str) {
     let enc = refcodec::encode(doc);
     let info = || format!("path={:?} doc={} bytes={}", text, doc.show(), hex(&enc));
     ctx.count("path-doc pairs");
+    ctx.evals += 1;
     let mut res: Vec<Selected> = Vec::new();
     for m in 0..4 {
         match select(text.as_bytes(), &enc, m) {
